@@ -242,3 +242,42 @@ func verifH_C07_orchestration() {
 
 // verifBody: a request body reader over fixed content.
 func verifBody(s string) io.ReadCloser { return io.NopCloser(strings.NewReader(s)) }
+
+//verif:harness id=C07 tier=quick,thorough witness=end bounds="no authentication callback configured (Options nil, or Options without AuthenticationFunc): operation security list in 8 shapes x document list in 4: the request passes iff the effective list is empty or contains an empty requirement (which needs no authentication); anything else is refused, never accepted and never a panic"
+func verifH_C07_no_callback() {
+	opSec, _ := verifSecList("opSec", 8)
+	docSecP, _ := verifSecList("docSec", 4)
+	var docSec openapi3.SecurityRequirements
+	if docSecP != nil {
+		docSec = *docSecP
+	}
+	spec := &openapi3.T{Security: docSec, Components: &openapi3.Components{SecuritySchemes: openapi3.SecuritySchemes{
+		"A": &openapi3.SecuritySchemeRef{Value: &openapi3.SecurityScheme{Type: "http", Scheme: "basic"}},
+		"B": &openapi3.SecuritySchemeRef{Value: &openapi3.SecurityScheme{Type: "apiKey", In: "header", Name: "k"}},
+	}}}
+	op := &openapi3.Operation{Security: opSec}
+	var opts *Options
+	if verifChoose("options", 2) == 1 {
+		opts = &Options{MultiError: verifNondetBool("multi")}
+	}
+	input := &RequestValidationInput{
+		Request: &http.Request{Method: "GET", Header: http.Header{}, URL: &url.URL{Path: "/"}},
+		Route:   &routers.Route{Spec: spec, PathItem: &openapi3.PathItem{Get: op}, Operation: op, Method: "GET"},
+		Options: opts, QueryParams: url.Values{}, PathParams: map[string]string{},
+	}
+	err := ValidateRequest(context.Background(), input)
+	var eff openapi3.SecurityRequirements
+	if opSec != nil {
+		eff = *opSec
+	} else {
+		eff = docSec
+	}
+	want := len(eff) == 0
+	for _, req := range eff {
+		if len(req) == 0 {
+			want = true
+		}
+	}
+	verifAssert((err == nil) == want, "C07 no callback: without an authentication callback exactly the requests that need no authentication pass")
+	verifReach("end")
+}
